@@ -14,7 +14,27 @@ from typing import Any
 from .. import casecheck
 from ..core import Ctx
 
-KINDS = ["tab", "tabsym", "sym", "plain"]   # unnamed table, named table (symbol), non-table symbol, plain op with a region
+KINDS = ["tab", "tabsym", "sym", "symattr", "plain"]   # unnamed table, named table (symbol), non-table symbol (name stored as
+#                                                          property / as attribute), plain op with a region
+_ATTRSYM: list = []
+
+
+def attr_symbol_cls():
+    """A symbol op that stores sym_name in its ATTRIBUTE dictionary (as ml_program.global, riscv_func.func ... do)."""
+    if not _ATTRSYM:
+        from xdsl.dialects.builtin import StringAttr
+        from xdsl.irdl import IRDLOperation, attr_def, irdl_op_definition, traits_def, var_region_def
+        from xdsl.traits import SymbolOpInterface
+
+        @irdl_op_definition
+        class AttrSymbolOp(IRDLOperation):
+            name = "verif.attr_symbol"
+            sym_name = attr_def(StringAttr)
+            regs = var_region_def()
+            traits = traits_def(SymbolOpInterface())
+
+        _ATTRSYM.append(AttrSymbolOp)
+    return _ATTRSYM[0]
 API = ["utils.lookup_nearest_symbol_from", "collection.lookup_nearest_symbol_from", "traits.SymbolTable.lookup_symbol",
        "utils.lookup_symbol_in(nearest table)", "collection.lookup_symbol_in(nearest table)"]
 
@@ -33,6 +53,8 @@ def build(tree: list[dict[str, Any]]):
         vis = {"sym_visibility": StringAttr(node["vis"])} if node["vis"] != "public" else {}
         if node["table"]:
             op = ModuleOp(kids, attributes=vis, sym_name=StringAttr(node["name"]) if node["name"] else None)
+        elif node["name"] and node.get("attr"):
+            op = attr_symbol_cls().create(attributes=dict(vis, sym_name=StringAttr(node["name"])), regions=[Region([Block(kids)])] if kids else [])
         elif node["name"]:
             op = test.TestSymbolOp.create(properties={"sym_name": StringAttr(node["name"])}, attributes=vis,
                                           regions=[Region([Block(kids)])] if kids else [])
@@ -53,7 +75,7 @@ def all_trees(max_nodes: int, names=("a", "b")):
             return
         for par in range(1, len(nodes) + 1):
             for kind in KINDS:
-                nms = names if kind in ("tabsym", "sym") else ("",)
+                nms = names if kind in ("tabsym", "sym", "symattr") else ("",)
                 for nm in nms:
                     for vis in (("public", "private") if nm else ("public",)):
                         # a table must not define one name twice (verified modules)
@@ -63,13 +85,14 @@ def all_trees(max_nodes: int, names=("a", "b")):
                         if nm and any(n["name"] == nm and _table_of(nodes, i + 1) == ptab for i, n in enumerate(nodes) if i > 0):
                             continue
                         new = [dict(n, kids=list(n["kids"])) for n in nodes]
-                        new.append({"name": nm, "table": 1 if kind in ("tab", "tabsym") else 0, "vis": vis, "par": par, "kids": []})
+                        new.append({"name": nm, "table": 1 if kind in ("tab", "tabsym") else 0, "vis": vis, "par": par, "kids": [],
+                                    "attr": 1 if kind == "symattr" else 0})
                         new[par - 1]["kids"].append(len(new))
                         # canonical generation order: parents non-decreasing keeps every tree once
                         if len(nodes) > 1 and par < nodes[-1]["par"]:
                             continue
                         yield from rec(new)
-    root = [{"name": "", "table": 1, "vis": "public", "par": 0, "kids": []}]
+    root = [{"name": "", "table": 1, "vis": "public", "par": 0, "kids": [], "attr": 0}]
     yield from rec(root)
 
 
@@ -133,7 +156,7 @@ def run(ctx: Ctx):
             continue
         qs = []
         for frm in range(1, len(tree) + 1):
-            for ref in refs(maxlen=2 if ctx.quick and len(tree) > 3 else 3):
+            for ref in refs(maxlen=3):
                 qs.append({"from": frm, "ref": ref, "got": ask(tree, ops, frm, ref)})
         nq += len(qs)
         cases.append({"t": tree, "q": qs})
@@ -152,6 +175,6 @@ def run(ctx: Ctx):
                      "got": q["got"][a - 1], "want": want}, clause="LookupDesignatedSymbol")
     ctx.coverage.update({"evaluations": nq, "distinct_nontrivial": nq, "trees": len(cases), "exhaustive": True, "judge_states": res.states,
                          "rule": f"every tree with <= {max_nodes} nodes (kinds: unnamed/named table, non-table symbol, plain region op; names a/b; public/private; unique "
-                                 "names per table) x every reference of length <= 3 (quick: <=2 on the largest trees) x every `from` op; 6 API routes each"})
+                                 "names per table) x every reference of length <= 3 (x every `from` op; 6 API routes each"})
     ctx.sample({"tree": cases[len(cases) // 2]["t"], "queries": cases[len(cases) // 2]["q"][:3]})
     ctx.assumptions += ["SymbolTable.tla states the nesting rules of the property; trees are verified modules"]
